@@ -23,8 +23,13 @@ pub enum Op {
     Clean,
     /// run all stages until every queue is empty
     Drain,
-    /// take a snapshot now; it is checked against the model at the end of the run
+    /// take a snapshot now; it is checked against the model at the end of the run. At capture the
+    /// snapshot is also asked for every block of the scenario by hash (blocks it cannot know yet
+    /// included, as an RPC client may do); its answers must never change afterwards
     Snapshot,
+    /// ask every captured snapshot the same questions again (the chain has moved on; the read
+    /// caches are shared between all snapshots and the live store)
+    StaleRead,
     /// advance the simulated clock
     Clock { ms: u64 },
     /// clean shutdown and restart (new process on the same directories)
@@ -701,6 +706,19 @@ pub fn generate(seed: u64, prop: &str) -> Scenario {
     } else {
         gen_ops(&mut r, n, true, prop == "C02")
     };
+    if prop == "C02" || prop == "C14" {
+        // snapshot readers that come back later: a reader captured at an arbitrary point asks again
+        // after the chain has moved on
+        let mut rs = Rng::new(seed ^ 0x57A1_E4EA);
+        if rs.chance(2, 3) {
+            for _ in 0..rs.urange(1, 3) {
+                let at = rs.idx(ops.len() + 1);
+                ops.insert(at, Op::Snapshot);
+                let later = at + 1 + rs.idx(ops.len() - at);
+                ops.insert(later.min(ops.len()), Op::StaleRead);
+            }
+        }
+    }
     if prop == "C10" {
         // freeze passes at arbitrary points, a few clean restarts
         let k = r.urange(3, 12);
